@@ -338,3 +338,134 @@ theorem C14_no_hidden_process_state :
 end SA.PkgState
 
 #print axioms SA.PkgState.C14_no_hidden_process_state
+
+/-! ### a session that is ended while its carrier write is blocked (SA.Model.CarrierClose) -/
+namespace SA.CarrierClose
+
+/-- the calls before the socket is closed are all bounded, or no Write is blocked; the closing goroutine is through
+    only once the socket is closed -/
+def BInv (s : St) : Prop :=
+  ((∀ p ∈ s.pre, p = PreStep.bounded) ∨ s.writerBlocked = false) ∧ (s.closerDone = true → s.sockClosed = true)
+
+theorem step_binv {s s' : St} (a : Act) (h : BInv s) (hs : step s a = some s') : BInv s' := by
+  obtain ⟨h1, h2⟩ := h
+  cases a with
+  | closer =>
+    simp only [step] at hs
+    split at hs
+    · simp at hs
+    · split at hs
+      · simp at hs; subst hs; exact ⟨h1, fun _ => rfl⟩
+      · rename_i r hp
+        simp at hs; subst hs
+        refine ⟨?_, h2⟩
+        rcases h1 with h1 | h1
+        · left; intro p hp'; exact h1 p (by rw [hp]; exact List.mem_cons_of_mem _ hp')
+        · right; exact h1
+      · rename_i r hp
+        split at hs
+        · simp at hs
+        · simp at hs; subst hs
+          refine ⟨?_, h2⟩
+          rcases h1 with h1 | h1
+          · left; intro p hp'; exact h1 p (by rw [hp]; exact List.mem_cons_of_mem _ hp')
+          · right; exact h1
+  | sender =>
+    simp only [step] at hs
+    split at hs
+    · simp at hs; subst hs; exact ⟨Or.inr rfl, h2⟩
+    · simp at hs
+  | receiver =>
+    simp only [step] at hs
+    split at hs
+    · simp at hs; subst hs; exact ⟨h1, h2⟩
+    · simp at hs
+
+theorem run_binv {s : St} (h : BInv s) (acts : List Act) : BInv (run s acts) := by
+  induction acts generalizing s with
+  | nil => exact h
+  | cons a as ih =>
+    simp only [run]
+    split
+    · rename_i s' hs; exact ih (step_binv a h hs)
+    · exact ih h
+
+/-- **blocked_session_released** (general form): if every call the closing goroutine makes before the socket is
+    closed carries a finite deadline — or no carrier Write is blocked — then, under every interleaving of the closing
+    goroutine, the send loop and the receive loop, with a peer that neither reads nor hangs up, every state in which
+    nothing can move any more has the socket closed and no goroutine of the session left. -/
+theorem C14_blocked_session_released (pre : List PreStep) (blocked : Bool)
+    (h : (∀ p ∈ pre, p = PreStep.bounded) ∨ blocked = false) (acts : List Act) :
+    let s := run (init pre blocked) acts
+    quiescent s = true → live s = 0 ∧ s.sockClosed = true := by
+  intro s hq
+  have hinv : BInv s := run_binv (s := init pre blocked) ⟨h, by simp [init]⟩ acts
+  obtain ⟨h1, h2⟩ := hinv
+  simp only [quiescent, Bool.and_eq_true, Option.isNone_iff_eq_none] at hq
+  obtain ⟨⟨hc, hsn⟩, hr⟩ := hq
+  -- the closing goroutine is through
+  have hdone : s.closerDone = true := by
+    cases hcd : s.closerDone with
+    | true => rfl
+    | false =>
+      simp only [step, hcd] at hc
+      cases hp : s.pre with
+      | nil => simp [hp] at hc
+      | cons p r =>
+        cases p with
+        | bounded => simp [hp] at hc
+        | waits =>
+          rcases h1 with h1 | h1
+          · have := h1 PreStep.waits (by rw [hp]; exact List.mem_cons_self)
+            cases this
+          · simp [hp, h1] at hc
+  have hsock := h2 hdone
+  have hsl : s.senderLive = false := by
+    cases hl : s.senderLive with
+    | false => rfl
+    | true => simp [step, hl, hsock] at hsn
+  have hrl : s.receiverLive = false := by
+    cases hl : s.receiverLive with
+    | false => rfl
+    | true => simp [step, hl, hsock] at hr
+  exact ⟨by simp [live, hdone, hsl, hrl], hsock⟩
+
+/-- **carrier_close_does_not_wait**: in the code as it is, no Close method of a connection wrapper in
+    internal/streams (WebsocketTunnelConnection, SafeConnection, SafeStream, SafeReader, SafeWriter, ReadWriteCloser)
+    and none of the places that end a session (Upstreams.discard, Upstreams.Shutdown on the client, the branch of the
+    server's accept loop that closes a dead session) makes a call —
+    a write, a flush, a control frame, a lock, a wait — that lacks a finite deadline before the socket underneath is
+    closed (regenerated from the source; the complete list of their calls besides closes, logging and error
+    bookkeeping). -/
+theorem C14_carrier_close_does_not_wait : ∀ p ∈ genPre, p = PreStep.bounded := by decide
+
+/-- … hence a session of the current code that is ended while its send loop is blocked in a carrier Write is released
+    whatever the peer does: socket closed, no goroutine left, in every final state of every interleaving. -/
+theorem C14_blocked_session_released_now (blocked : Bool) (acts : List Act) :
+    let s := run (init genPre blocked) acts
+    quiescent s = true → live s = 0 ∧ s.sockClosed = true :=
+  C14_blocked_session_released genPre blocked (Or.inl C14_carrier_close_does_not_wait) acts
+
+/-- **witness_close_waits**: one call without a deadline before the socket is closed (a close frame written with a
+    zero deadline, a flush, a lock shared with Write) and a blocked Write: nothing can move, the closing goroutine, the
+    send loop and the receive loop are all still there and the socket is open — for as long as the peer likes. -/
+theorem C14_witness_close_waits :
+    let s := init [PreStep.waits] true
+    quiescent s = true ∧ live s = 3 ∧ s.sockClosed = false := by decide
+
+/-- the same Close on a session whose write path is idle goes through (which is why no test notices) -/
+theorem C14_witness_close_waits_idle_ok :
+    let s := settle (init [PreStep.waits] false)
+    quiescent s = true ∧ live s = 0 ∧ s.sockClosed = true := by decide
+
+/-! non-vacuity: the run of the current code with a blocked writer reaches a final state -/
+example : let s := settle (init genPre true)
+    quiescent s = true ∧ live s = 0 ∧ s.sockClosed = true := by decide
+
+end SA.CarrierClose
+
+#print axioms SA.CarrierClose.C14_blocked_session_released
+#print axioms SA.CarrierClose.C14_carrier_close_does_not_wait
+#print axioms SA.CarrierClose.C14_blocked_session_released_now
+#print axioms SA.CarrierClose.C14_witness_close_waits
+#print axioms SA.CarrierClose.C14_witness_close_waits_idle_ok
